@@ -174,6 +174,16 @@ def identities(text: str) -> Dict[str, Any]:
     return payload
 
 
+def identities_inspect_way(text: str) -> Dict[str, Any]:
+    """The way `semantiva inspect` gets there: the node list is inspected first, the payload is then built from the SAME
+    configuration object and that inspection."""
+    from semantiva.inspection import build_inspection_payload, build_pipeline_inspection
+
+    cfg = yaml.safe_load(text)
+    insp = build_pipeline_inspection(cfg["pipeline"]["nodes"])
+    return build_inspection_payload(cfg, inspection=insp)
+
+
 def summary(payload) -> Dict[str, Any]:
     return {"semantic_id": payload["identity"]["semantic_id"], "config_id": payload["identity"]["config_id"],
             "nodes": [(n["uuid"], n["node_semantic_id"]) for n in payload["pipeline_spec_canonical"]["nodes"]]}
